@@ -98,6 +98,52 @@ fn show_cards(mask: u64) -> String {
     (0..52u8).filter(|c| mask >> c & 1 == 1).map(|c| format!("{}{}", ["2", "3", "4", "5", "6", "7", "8", "9", "T", "J", "Q", "K", "A"][(c / 4) as usize], ["c", "d", "h", "s"][(c % 4) as usize])).collect::<Vec<_>>().join("")
 }
 
+/// the raise clause at one decision node, written from the property text and the configured tables
+/// (independent of Game::choices / Game::raises): with n raises / all-ins already made in the
+/// current betting round the menu's raise edges are exactly the street's grid (PREF / FLOP /
+/// LATE for n = 0 and LAST for n >= 1 on turn and river) while a raise is legal and
+/// n <= MAX_RAISE_REPEATS, and there is NO raise edge once n > MAX_RAISE_REPEATS; no betting round
+/// holds more than MAX_RAISE_REPEATS + 1 raises. `history` is the full path from the root
+fn check_raise_cap(run: &mut Run, game: &Game, history: &[Edge], menu: &[Edge], at: &str) {
+    if !matches!(game.turn(), Turn::Choice(_)) {
+        return;
+    }
+    run.spec_checked += 1;
+    let round: Vec<Edge> = history.iter().rev().take_while(|e| !matches!(e, Edge::Draw)).copied().collect();
+    let n = round.iter().filter(|e| is_aggro(e)).count();
+    let n_raise = round.iter().filter(|e| matches!(e, Edge::Raise(_))).count();
+    let offered: Vec<Edge> = menu.iter().filter(|e| matches!(e, Edge::Raise(_))).copied().collect();
+    let shown = u64::from(Hand::from(game.board())).count_ones();
+    let describe = || {
+        let seats = game.verif_seats();
+        format!(
+            "{at}: line [{}], {} board cards, pot {}, stacks {} / {}, {n} raises / all-ins ({n_raise} raises) already made in this betting round, menu [{}]",
+            history.iter().map(show_edge).collect::<Vec<_>>().join(" "), shown, game.pot(), seats[0].1, seats[1].1,
+            menu.iter().map(show_edge).collect::<Vec<_>>().join(" ")
+        )
+    };
+    if n_raise > MAX_RAISE_REPEATS + 1 {
+        run.fail("raise-cap-exceeded", &describe(), &format!("at most {} raises in a betting round", MAX_RAISE_REPEATS + 1), &format!("{n_raise}"));
+    }
+    if n > MAX_RAISE_REPEATS {
+        if !offered.is_empty() {
+            run.fail("menu-offers-raise-beyond-cap", &describe(), &format!("no raise edge once more than {MAX_RAISE_REPEATS} raises / all-ins were made in the round"), &format!("[{}]", offered.iter().map(show_edge).collect::<Vec<_>>().join(" ")));
+        }
+        run.count(&format!("decision-node-at-raise-cap board-cards={shown}{}", if game.legal().iter().any(|a| matches!(a, Action::Raise(_))) { " raise-still-affordable" } else { "" }));
+        return;
+    }
+    let grid: Vec<Odds> = match (shown, n) {
+        (0, _) => Odds::PREF_RAISES.to_vec(),
+        (3, _) => Odds::FLOP_RAISES.to_vec(),
+        (_, 0) => Odds::LATE_RAISES.to_vec(),
+        _ => Odds::LAST_RAISES.to_vec(),
+    };
+    let want: Vec<Edge> = if game.legal().iter().any(|a| matches!(a, Action::Raise(_))) { grid.into_iter().map(Edge::Raise).collect() } else { vec![] };
+    if want != offered {
+        run.fail("menu-raises-not-the-grid-of-street-and-round", &describe(), &format!("[{}]", want.iter().map(show_edge).collect::<Vec<_>>().join(" ")), &format!("[{}]", offered.iter().map(show_edge).collect::<Vec<_>>().join(" ")));
+    }
+}
+
 /// the leaf clause on one childless node, through the real Node::payoff: finished hand, the two
 /// payoffs sum to zero, and they are the rules payout. returns the payoffs (0, 0 if unavailable)
 fn check_leaf(run: &mut Run, node: &robopoker::mccfr::node::Node, at: &str) -> (i32, i32) {
@@ -186,7 +232,9 @@ fn check_tree(run: &mut Run, rng: &mut Rng, tree: &Tree, profile: &Profile, know
                 }
                 e => pg.actionize(e),
             };
-            if !pg.is_allowed(&action) {
+            if let Err(why) = rules_permit(pg, &action) {
+                run.fail("child-by-forbidden-action", &format!("{at}: edge {} of the parent after {}", show_edge(e), describe_node(&p)), &why, &format!("{action:?}"));
+            } else if !pg.is_allowed(&action) {
                 run.fail("child-by-forbidden-action", &at, "an action permitted in the parent state", &format!("{action:?}"));
             } else if !same_game(&pg.apply(action), game) {
                 run.fail("child-not-parent-after-action", &at, &game_fields(&pg.apply(action)), &game_fields(game));
@@ -209,6 +257,7 @@ fn check_tree(run: &mut Run, rng: &mut Rng, tree: &Tree, profile: &Profile, know
         if n_raise > MAX_RAISE_REPEATS + 1 {
             run.fail("raise-cap-exceeded", &at, &format!("at most {} raises in a betting round", MAX_RAISE_REPEATS + 1), &format!("{n_raise}"));
         }
+        check_raise_cap(run, game, &hist[i], &menu, &at);
         let want_menu = game.choices(n_aggro);
         if want_menu != menu {
             run.fail("menu-not-choices-of-round", &at, &format!("{want_menu:?}"), &format!("{menu:?}"));
@@ -452,7 +501,10 @@ fn structured_deals(rng: &mut Rng) -> Vec<Deal> {
 /// Encoder::branches (decisions: the edge is picked from the node's own menu by `style`) or the
 /// child Game::apply(Action::Draw(chosen cards)) (chance). the leaf goes through check_leaf.
 /// styles: 0 check-down, 1 bet-and-call every street, 2 all-in before the flop, 3 check to a
-/// street then all-in, 4 a fold at the k-th decision that offers one, 5 random walk
+/// street then all-in, 4 a fold at the k-th decision that offers one, 5 random walk, 6 / 7 limp,
+/// check every street before the river / the turn, then a raising war with the SMALLEST raise edge
+/// for as long as the menu offers a raise (the only way a late betting round reaches the raise cap
+/// with chips behind). every decision node on the line goes through check_raise_cap
 fn line_hand(run: &mut Run, rng: &mut Rng, encoder: &Encoder, deal: &Deal, style: u64) {
     let mut tree = Tree::empty(if rng.chance(1, 2) { P0 } else { P1 });
     let root = deal.root();
@@ -484,8 +536,16 @@ fn line_hand(run: &mut Run, rng: &mut Rng, encoder: &Encoder, deal: &Deal, style
                     Branch(Data::from((g, encoder.abstraction(&g))), Edge::Draw, head)
                 }
                 Turn::Choice(_) => {
-                    let mut bs = encoder.branches(&node);
+                    let mut bs = match catch(std::panic::AssertUnwindSafe(|| encoder.branches(&node))) {
+                        Some(bs) => bs,
+                        None => {
+                            run.fail("tree-build-aborts", &format!("{what}: Encoder::branches at the node after {}", describe_node(&node)), "the children of the node, one per menu edge", "panic (Game::apply refuses the action an edge was turned into)");
+                            return;
+                        }
+                    };
                     let edges: Vec<Edge> = bs.iter().map(|b| *b.edge()).collect();
+                    let path: Vec<Edge> = node.history().into_iter().copied().collect();
+                    check_raise_cap(run, &game, &path, &Vec::<Edge>::from(node.bucket().2.clone()), &what);
                     let pos = |want: &dyn Fn(&Edge) -> bool| edges.iter().position(|e| want(e));
                     let passive = pos(&|e| matches!(e, Edge::Check)).or(pos(&|e| matches!(e, Edge::Call)));
                     let call = pos(&|e| matches!(e, Edge::Call)).or(pos(&|e| matches!(e, Edge::Check))).or(pos(&|e| matches!(e, Edge::Shove)));
@@ -507,6 +567,14 @@ fn line_hand(run: &mut Run, rng: &mut Rng, encoder: &Encoder, deal: &Deal, style
                             } else {
                                 passive
                             }
+                        }
+                        6 | 7 => {
+                            let war_from = if style == 6 { 3 } else { 2 };
+                            let smallest = raises.iter().copied().min_by(|&a, &b| match (edges[a], edges[b]) {
+                                (Edge::Raise(x), Edge::Raise(y)) => (x.0 as i32 * y.1 as i32).cmp(&(y.0 as i32 * x.1 as i32)),
+                                _ => std::cmp::Ordering::Equal,
+                            });
+                            if street >= war_from { smallest.or(call) } else { passive }
                         }
                         _ => {
                             let k = rng.below(edges.len() as u64) as usize;
@@ -530,13 +598,233 @@ fn line_hand(run: &mut Run, rng: &mut Rng, encoder: &Encoder, deal: &Deal, style
     run.distinct(&(deal.holes, deal.board, leaf.history().iter().map(|e| u8::from(**e)).collect::<Vec<u8>>()));
 }
 
+fn describe_node(node: &robopoker::mccfr::node::Node) -> String {
+    let game = node.data().game();
+    let seats = game.verif_seats();
+    format!(
+        "line [{}], pot {}, stacks {} / {}, actor's stack {}, menu [{}]",
+        node.history().iter().map(|e| show_edge(e)).collect::<Vec<_>>().join(" "), game.pot(), seats[0].1, seats[1].1, game.to_shove(),
+        Vec::<Edge>::from(node.bucket().2.clone()).iter().map(show_edge).collect::<Vec<_>>().join(" ")
+    )
+}
+
+/// the concrete action an edge stands for must be PERMITTED BY THE RULES (harness-side reading,
+/// independent of Game::is_allowed): a raise leaves at least one chip behind (amount <= stack - 1)
+/// and is at least the minimum raise, the all-in is exactly the stack, a call is the amount owed
+fn rules_permit(game: &Game, action: &Action) -> Result<(), String> {
+    let stack = game.to_shove();
+    match action {
+        Action::Raise(x) if *x > stack - 1 => Err(format!("a raise must leave at least one chip behind: at most {} with a stack of {stack}; the whole stack is the all-in Shove({stack})", stack - 1)),
+        Action::Raise(x) if *x < game.to_raise() => Err(format!("a raise is at least the minimum raise {}", game.to_raise())),
+        Action::Shove(x) if *x != stack => Err(format!("the all-in is the whole stack {stack}")),
+        Action::Call(x) if *x != game.to_call() || *x >= stack => Err(format!("a call is the amount owed {} and less than the stack {stack}", game.to_call())),
+        _ => Ok(()),
+    }
+}
+
+/// EXACT-STACK raises: states of the abstract game in which a raise edge of the node's own menu is
+/// worth exactly the actor's remaining stack (floor(pot * num / den) == stack), found by a search
+/// over random betting lines (all raise sizes, mostly raising / calling) on the real Game API with
+/// the arithmetic done harness-side; the search itself never takes such an edge
+struct Hit {
+    line: Vec<Edge>,
+    edge: Edge,
+    pot: i32,
+    stack: i32,
+}
+fn exact_stack_hits(rng: &mut Rng, walks: usize) -> Vec<Hit> {
+    let all = (1u64 << 52) - 1;
+    let mut hits: Vec<Hit> = vec![];
+    let mut seen: HashSet<(u32, i32, i32, u8)> = HashSet::new();
+    for _ in 0..walks {
+        let h0 = rng.cards(2, all);
+        let h1 = rng.cards(2, all & !h0);
+        let mut game = Game::root().verif_with_holes(&[Hole::from(Hand::from(h0)), Hole::from(Hand::from(h1))]);
+        let mut line: Vec<Edge> = vec![];
+        // a walk prefers small, large or any raise sizes so that many (pot, stack) pairs are met
+        let taste = rng.below(3);
+        for _ in 0..40 {
+            match game.turn() {
+                Turn::Terminal => break,
+                Turn::Chance => {
+                    let board = u64::from(Hand::from(game.board()));
+                    let k = if board == 0 { 3 } else { 1 };
+                    let cards = rng.cards(k, all & !h0 & !h1 & !board);
+                    match catch(std::panic::AssertUnwindSafe(|| game.apply(Action::Draw(Hand::from(cards))))) {
+                        Some(g) => game = g,
+                        None => break,
+                    }
+                    line.push(Edge::Draw);
+                }
+                Turn::Choice(_) => {
+                    let n = line.iter().rev().take_while(|e| !matches!(e, Edge::Draw)).filter(|e| is_aggro(e)).count();
+                    let menu = match catch(std::panic::AssertUnwindSafe(|| game.choices(n))) {
+                        Some(m) => m,
+                        None => break,
+                    };
+                    let (pot, stack) = (game.pot() as i32, game.to_shove() as i32);
+                    let exact = |e: &Edge| matches!(e, Edge::Raise(o) if pot * o.0 as i32 / o.1 as i32 == stack);
+                    let shown = u64::from(Hand::from(game.board())).count_ones();
+                    for e in menu.iter().filter(|e| exact(e)) {
+                        if seen.insert((shown, pot, stack, u8::from(*e))) {
+                            hits.push(Hit { line: line.clone(), edge: *e, pot, stack });
+                        }
+                    }
+                    let safe: Vec<Edge> = menu.iter().filter(|e| !exact(e)).copied().collect();
+                    let raises: Vec<Edge> = safe.iter().filter(|e| matches!(e, Edge::Raise(_))).copied().collect();
+                    let passive = safe.iter().find(|e| matches!(e, Edge::Call | Edge::Check)).copied();
+                    let pick = if !raises.is_empty() && rng.chance(3, 5) {
+                        Some(match taste {
+                            0 => raises[rng.below(raises.len().min(3) as u64) as usize],
+                            1 => raises[raises.len() - 1 - rng.below(raises.len().min(3) as u64) as usize],
+                            _ => raises[rng.below(raises.len() as u64) as usize],
+                        })
+                    } else if rng.chance(1, 40) {
+                        safe.iter().find(|e| matches!(e, Edge::Shove)).copied().or(passive)
+                    } else {
+                        passive
+                    };
+                    let e = match pick.or(safe.first().copied()) {
+                        Some(e) => e,
+                        None => break,
+                    };
+                    match catch(std::panic::AssertUnwindSafe(|| game.apply(game.actionize(&e)))) {
+                        Some(g) => game = g,
+                        None => break,
+                    }
+                    line.push(e);
+                }
+            }
+        }
+    }
+    hits
+}
+
+/// one exact-stack state planted on the real tree primitives: the line is replayed with
+/// Tree::plant / Tree::fork + Encoder::branches, then the children of the node are computed as
+/// the builder computes them. the build must not abort, the edge must have a child, the concrete
+/// action must be the all-in (a raise of the whole stack is not a permitted raise), every other
+/// edge's action must be permitted by the rules, and the child is the parent after that action
+fn plant_hit(run: &mut Run, rng: &mut Rng, encoder: &Encoder, hit: &Hit) {
+    let all = (1u64 << 52) - 1;
+    let h0 = rng.cards(2, all);
+    let h1 = rng.cards(2, all & !h0);
+    let root = Game::root().verif_with_holes(&[Hole::from(Hand::from(h0)), Hole::from(Hand::from(h1))]);
+    let mut tree = Tree::empty(if rng.chance(1, 2) { P0 } else { P1 });
+    let mut head = tree.plant(Data::from((root, encoder.abstraction(&root)))).index();
+    let what = format!("exact-stack raise: after line [{}] the pot is {} and the actor's stack {}, menu edge {} is worth pot x {}/{} = {} chips = the whole stack",
+        hit.line.iter().map(show_edge).collect::<Vec<_>>().join(" "), hit.pot, hit.stack, show_edge(&hit.edge),
+        match hit.edge { Edge::Raise(o) => o.0, _ => 0 }, match hit.edge { Edge::Raise(o) => o.1, _ => 1 }, hit.stack);
+    run.evaluations += 1;
+    for e in hit.line.iter() {
+        let branch = {
+            let node = tree.at(head);
+            let game = *node.data().game();
+            if matches!(e, Edge::Draw) {
+                let board = u64::from(Hand::from(game.board()));
+                let cards = rng.cards(if board == 0 { 3 } else { 1 }, all & !h0 & !h1 & !board);
+                let g = game.apply(Action::Draw(Hand::from(cards)));
+                Branch(Data::from((g, encoder.abstraction(&g))), Edge::Draw, head)
+            } else {
+                let mut bs = match catch(std::panic::AssertUnwindSafe(|| encoder.branches(&node))) {
+                    Some(bs) => bs,
+                    None => {
+                        run.fail("tree-build-aborts", &format!("{what}; Encoder::branches already aborts on the way, at {}", describe_node(&node)), "the children of the node, one per menu edge", "panic (Game::apply refuses the action an edge was turned into)");
+                        return;
+                    }
+                };
+                match bs.iter().position(|b| b.edge() == e) {
+                    Some(i) => bs.remove(i),
+                    None => {
+                        run.fail("planted-line-not-on-the-menu", &what, &show_edge(e), &describe_node(&node));
+                        return;
+                    }
+                }
+            }
+        };
+        head = tree.fork(branch).index();
+    }
+    let node = tree.at(head);
+    let game = *node.data().game();
+    if game.pot() as i32 != hit.pot || game.to_shove() as i32 != hit.stack {
+        run.fail("planted-line-diverges", &what, &format!("pot {} stack {}", hit.pot, hit.stack), &describe_node(&node));
+        return;
+    }
+    run.spec_checked += 1;
+    let bs = match catch(std::panic::AssertUnwindSafe(|| encoder.branches(&node))) {
+        Some(bs) => bs,
+        None => {
+            run.fail("tree-build-aborts", &format!("{what}; Encoder::branches (as called by Blueprint::sample on every node) at the node: {}", describe_node(&node)), "the children of the node, one per menu edge", "panic (Game::apply refuses the action the edge was turned into)");
+            return;
+        }
+    };
+    let menu: Vec<Edge> = Vec::<Edge>::from(node.bucket().2.clone());
+    let got: Vec<Edge> = bs.iter().map(|b| *b.edge()).collect();
+    if got != menu || !got.contains(&hit.edge) {
+        run.fail("menu-edge-without-child", &what, &format!("{:?}", menu.iter().map(show_edge).collect::<Vec<_>>()), &format!("{:?}", got.iter().map(show_edge).collect::<Vec<_>>()));
+    }
+    for b in bs.iter() {
+        run.spec_checked += 1;
+        let e = b.edge();
+        let action = match catch(std::panic::AssertUnwindSafe(|| game.actionize(e))) {
+            Some(a) => a,
+            None => {
+                run.fail("tree-build-aborts", &format!("{what}; Game::actionize({})", show_edge(e)), "an action", "panic");
+                continue;
+            }
+        };
+        if let Err(why) = rules_permit(&game, &action) {
+            run.fail("child-by-forbidden-action", &format!("{what}; edge {} was turned into {action:?}", show_edge(e)), &why, &format!("{action:?}"));
+            continue;
+        }
+        if *e == hit.edge && !matches!(action, Action::Shove(x) if x as i32 == hit.stack) {
+            run.fail("child-by-forbidden-action", &format!("{what}; edge {} was turned into {action:?}", show_edge(e)), &format!("Shove({})", hit.stack), &format!("{action:?}"));
+        }
+        match catch(std::panic::AssertUnwindSafe(|| game.apply(action))) {
+            Some(g) if same_game(&g, b.0.game()) => {}
+            Some(g) => run.fail("child-not-parent-after-action", &format!("{what}; edge {}", show_edge(e)), &game_fields(&g), &game_fields(b.0.game())),
+            None => run.fail("child-by-forbidden-action", &format!("{what}; edge {} was turned into {action:?}", show_edge(e)), "an action Game::apply accepts", "panic"),
+        }
+    }
+    // the child of the exact-stack edge joins the tree: the actor is all-in with nothing behind
+    if let Some(i) = bs.iter().position(|b| *b.edge() == hit.edge) {
+        let mut bs = bs;
+        let child = tree.fork(bs.remove(i));
+        let g = child.data().game();
+        let seats = g.verif_seats();
+        if g.pot() as i32 != hit.pot + hit.stack || !seats.iter().any(|s| s.1 == 0 && matches!(s.0, State::Shoving)) {
+            run.fail("child-not-parent-after-action", &what, &format!("pot {} and the actor all-in with 0 behind", hit.pot + hit.stack), &game_fields(g));
+        }
+    }
+    run.count(&format!("exact-stack-raise planted board-cards={}", u64::from(Hand::from(game.board())).count_ones()));
+    run.distinct(&(hit.pot, hit.stack, u8::from(hit.edge), hit.line.iter().map(|e| u8::from(*e)).collect::<Vec<u8>>()));
+}
+
 /// replica of Blueprint::tree / Blueprint::sample on the real tree primitives (Tree::plant / fork,
 /// Node::realize, Encoder::branches, Profile::witness / explore_all / explore_any), with the
 /// opponent's branch chosen by a script instead of explore_one, so that long hands (lines deeper
 /// than the 16-edge window) are built deliberately.
-fn directed_tree(profile: &mut Profile, encoder: &Encoder, style: u64, rng: &mut Rng, deal: Option<&Deal>) -> Tree {
+fn directed_tree(profile: &mut Profile, encoder: &Encoder, style: u64, rng: &mut Rng, deal: Option<&Deal>) -> Result<Tree, String> {
     fn pick(node: &robopoker::mccfr::node::Node, branches: &Vec<robopoker::mccfr::tree::Branch>, style: u64, depth: usize, rng: &mut Rng) -> usize {
         let edges: Vec<Edge> = branches.iter().map(|b| *b.edge()).collect();
+        if style == 12 || style == 13 {
+            // limp / check every street before the river (12) / the turn (13), then re-raise with the
+            // smallest raise edge for as long as one is offered: the traverser's own min-raise lines
+            // then run into the raise cap of a late betting round with chips still behind
+            use robopoker::cards::street::Street;
+            let passive = edges.iter().position(|e| matches!(e, Edge::Check)).or(edges.iter().position(|e| matches!(e, Edge::Call))).or(edges.iter().position(|e| matches!(e, Edge::Shove)));
+            let call = edges.iter().position(|e| matches!(e, Edge::Call)).or(passive);
+            let smallest = (0..edges.len()).filter(|&i| matches!(edges[i], Edge::Raise(_))).min_by(|&a, &b| match (edges[a], edges[b]) {
+                (Edge::Raise(x), Edge::Raise(y)) => (x.0 as i32 * y.1 as i32).cmp(&(y.0 as i32 * x.1 as i32)),
+                _ => std::cmp::Ordering::Equal,
+            });
+            let war = match node.data().game().street() {
+                Street::Rive => true,
+                Street::Turn => style == 13,
+                _ => false,
+            };
+            return if war { smallest.or(call) } else { passive }.unwrap_or(0);
+        }
         if style == 10 || style == 11 {
             // 10: all-in at the first opportunity (then calls); 11: folds to any bet after the
             // first decision of the hand, otherwise checks / calls
@@ -580,10 +868,15 @@ fn directed_tree(profile: &mut Profile, encoder: &Encoder, style: u64, rng: &mut
             _ => 0,
         }
     }
-    fn sample(profile: &mut Profile, encoder: &Encoder, node: &robopoker::mccfr::node::Node, style: u64, depth: usize, rng: &mut Rng, deal: Option<&Deal>) -> Vec<robopoker::mccfr::tree::Branch> {
+    fn sample(profile: &mut Profile, encoder: &Encoder, node: &robopoker::mccfr::node::Node, style: u64, depth: usize, rng: &mut Rng, deal: Option<&Deal>) -> Result<Vec<robopoker::mccfr::tree::Branch>, String> {
         let walker = profile.walker();
-        let mut branches = encoder.branches(node);
-        match (branches.len(), node.player()) {
+        // the children of a node are computed as the real builder computes them; if that aborts
+        // (an edge of the node's own menu turned into an action Game::act refuses) the node is named
+        let mut branches = match catch(std::panic::AssertUnwindSafe(|| encoder.branches(node))) {
+            Some(b) => b,
+            None => return Err(describe_node(node)),
+        };
+        Ok(match (branches.len(), node.player()) {
             (0, _) => vec![],
             (_, p) if p == Player::chance() => match deal {
                 None => profile.explore_any(branches, node),
@@ -603,7 +896,7 @@ fn directed_tree(profile: &mut Profile, encoder: &Encoder, style: u64, rng: &mut
                 profile.witness(node, &branches);
                 profile.explore_all(branches, node)
             }
-        }
+        })
     }
     let mut tree = Tree::empty(profile.walker());
     let mut todo: Vec<(robopoker::mccfr::tree::Branch, usize)> = {
@@ -615,14 +908,14 @@ fn directed_tree(profile: &mut Profile, encoder: &Encoder, style: u64, rng: &mut
             }
         };
         let ref node = tree.plant(seed);
-        sample(profile, encoder, node, style, 0, rng, deal).into_iter().map(|b| (b, 1)).collect()
+        sample(profile, encoder, node, style, 0, rng, deal)?.into_iter().map(|b| (b, 1)).collect()
     };
     while let Some((branch, depth)) = todo.pop() {
         let ref node = tree.fork(branch);
-        let kids = sample(profile, encoder, node, style, depth, rng, deal);
+        let kids = sample(profile, encoder, node, style, depth, rng, deal)?;
         todo.extend(kids.into_iter().map(|b| (b, depth + 1)));
     }
-    tree
+    Ok(tree)
 }
 
 /// `draws` draws of the real Profile::explore_one at one opponent node under the policy stored in
@@ -665,6 +958,89 @@ fn frequency_test(run: &mut Run, p2: &mut Profile, encoder: &Encoder, node: &rob
     }
 }
 
+/// the profile's CURRENT probability: at every epoch E the opponent is asked under policy A, the
+/// stored policy of the same bucket is then replaced (verif_set_memory) or updated through the real
+/// Profile::add_policy WITHOUT moving the epoch, and the opponent is asked again at the SAME epoch
+/// on the same thread. the second answers must follow the weights Profile::weight reports after
+/// the update (and the first ones policy A): per-edge 6 sigma on the summed per-draw weights
+fn same_epoch_update_test(run: &mut Run, rng: &mut Rng, encoder: &Encoder, node: &robopoker::mccfr::node::Node, draws: usize, what: &str) {
+    let bucket = node.bucket().clone();
+    let menu: Vec<Edge> = Vec::<Edge>::from(bucket.2.clone());
+    let n = menu.len();
+    let mut order: Vec<usize> = (0..n).collect();
+    for k in (1..n).rev() {
+        order.swap(k, rng.below(k as u64 + 1) as usize);
+    }
+    let a: Vec<f32> = order.iter().map(|k| 0.5f32.powi(*k as i32) + 0.01).collect();
+    let b: Vec<f32> = order.iter().map(|k| 0.5f32.powi((n - 1 - *k) as i32) + 0.01).collect();
+    for how in ["verif_set_memory", "Profile::add_policy"] {
+        let mut p = Profile::default();
+        // [phase][edge] = (count, expected, variance)
+        let mut acc = vec![vec![(0f64, 0f64, 0f64); n]; 2];
+        let mut ok = true;
+        for t in 0..draws {
+            for (e, v) in menu.iter().zip(&a) {
+                p.verif_set_memory(&bucket, e, 0.0, *v);
+            }
+            p.verif_set_epochs(1000 + t);
+            for phase in 0..2 {
+                if phase == 1 {
+                    if how == "verif_set_memory" {
+                        for (e, v) in menu.iter().zip(&b) {
+                            p.verif_set_memory(&bucket, e, 0.0, *v);
+                        }
+                    } else {
+                        let update: BTreeMap<Edge, f32> = menu.iter().zip(&b).map(|(e, v)| (*e, *v * 1.0e3)).collect();
+                        p.add_policy(&bucket, &robopoker::mccfr::policy::Policy::from(update));
+                    }
+                }
+                let weights: Vec<f64> = menu.iter().map(|e| p.weight(&bucket, e) as f64).collect();
+                run.evaluations += 1;
+                match catch(std::panic::AssertUnwindSafe(|| p.explore_one(encoder.branches(node), node))) {
+                    Some(chosen) if chosen.len() == 1 => {
+                        if let Some(i) = menu.iter().position(|e| e == chosen[0].edge()) {
+                            acc[phase][i].0 += 1.0;
+                        } else {
+                            run.fail("opponent-sampled-off-menu", what, "a menu edge", &show_edge(chosen[0].edge()));
+                        }
+                    }
+                    _ => {
+                        run.fail("explore-one-not-one", what, "one branch", "none / several / panic");
+                        ok = false;
+                    }
+                }
+                for (i, w) in weights.iter().enumerate() {
+                    acc[phase][i].1 += w;
+                    acc[phase][i].2 += w * (1.0 - w);
+                }
+            }
+            if !ok {
+                break;
+            }
+        }
+        run.spec_checked += 1;
+        for phase in 0..2 {
+            let table = menu.iter().zip(&acc[phase]).map(|(e, x)| format!("{}:expected={:.0}:n={}", show_edge(e), x.1, x.0)).collect::<Vec<_>>().join(" ");
+            for (e, x) in menu.iter().zip(&acc[phase]) {
+                if (x.0 - x.1).abs() > 6.0 * x.2.sqrt().max(1.0) {
+                    run.fail(
+                        if phase == 1 { "opponent-not-sampled-by-CURRENT-weight-after-same-epoch-update" } else { "opponent-not-sampled-by-weight" },
+                        &format!("{what}: at each epoch 1000..{} stored policy A = [{}] is written, the opponent asked, then the policy is {} [{}] at the SAME epoch and the opponent asked again; {} answers, edge {}; per edge expected (sum of Profile::weight at the time of the draw) and count: {table}",
+                            1000 + draws,
+                            menu.iter().zip(&a).map(|(e, v)| format!("{}={v:.3}", show_edge(e))).collect::<Vec<_>>().join(" "),
+                            if how == "verif_set_memory" { "replaced by B =" } else { "updated by Profile::add_policy with 1000 x B, B =" },
+                            menu.iter().zip(&b).map(|(e, v)| format!("{}={v:.3}", show_edge(e))).collect::<Vec<_>>().join(" "),
+                            if phase == 1 { "SECOND (after the update)" } else { "first" }, show_edge(e)),
+                        &format!("about {:.0}", x.1),
+                        &format!("{}", x.0),
+                    );
+                }
+            }
+        }
+        run.count(&format!("same-epoch-update-test {how} menu-size={n}"));
+    }
+}
+
 /// EXTREME policies at hand-planted opponent nodes (wide root menu, big blind's option, facing a
 /// raise, facing an all-in, first to act on a chosen flop): numerically dead actions (stored
 /// policy 1e-7 / 1e-9 / 1e-12 / f32::MIN_POSITIVE next to actions that carry all the mass, at the
@@ -682,7 +1058,7 @@ fn extreme_policy_frequencies(run: &mut Run, rng: &mut Rng, draws: usize) {
     fn step(tree: &mut Tree, encoder: &Encoder, from: petgraph::graph::NodeIndex, want: &dyn Fn(&Edge) -> bool) -> Option<petgraph::graph::NodeIndex> {
         let b = {
             let node = tree.at(from);
-            let mut bs = encoder.branches(&node);
+            let mut bs = catch(std::panic::AssertUnwindSafe(|| encoder.branches(&node)))?;
             let i = bs.iter().position(|b| want(b.edge()))?;
             bs.remove(i)
         };
@@ -707,7 +1083,7 @@ fn extreme_policy_frequencies(run: &mut Run, rng: &mut Rng, draws: usize) {
     if let Some(x) = step(&mut tree, &encoder, r, &|e| matches!(e, Edge::Shove)) {
         nodes.push((x, "big blind facing an all-in"));
     }
-    let tinies: [(f32, &str); 4] = [(1e-7, "1e-7"), (1e-9, "1e-9"), (1e-12, "1e-12"), (f32::MIN_POSITIVE, "f32::MIN_POSITIVE")];
+    let tinies: [(f32, &str); 5] = [(0.0, "exactly 0.0"), (1e-7, "1e-7"), (1e-9, "1e-9"), (1e-12, "1e-12"), (f32::MIN_POSITIVE, "f32::MIN_POSITIVE")];
     for (index, name) in nodes {
         let node = tree.at(index);
         if !matches!(node.player(), Player(Turn::Choice(_))) {
@@ -738,14 +1114,24 @@ fn extreme_policy_frequencies(run: &mut Run, rng: &mut Rng, draws: usize) {
             policies.push((format!("mass on two actions, every other stored policy {tname}"), v, draws));
             // B: one dead action among live ones
             if n >= 3 {
-                let dead = [0, n / 2, n - 1, rng.below(n as u64) as usize][ti];
+                let dead = [0, n / 2, n - 1, rng.below(n as u64) as usize, 1][ti];
                 let mut order: Vec<usize> = (0..n).collect();
                 for k in (1..n).rev() {
                     order.swap(k, rng.below(k as u64 + 1) as usize);
                 }
                 let mut v: Vec<f32> = order.iter().map(|k| 0.5f32.powi(*k as i32) + 0.01).collect();
                 v[dead] = *tiny;
-                policies.push((format!("one action (menu position {dead}) with stored policy {tname} among live ones"), v, draws));
+                policies.push((format!("one action (menu position {dead}) with stored policy {tname} among live ones"), v.clone(), draws));
+                if ti == 0 {
+                    // exact zeros (a fully decayed / pruned row of a loaded blueprint) also in the middle,
+                    // and two of them
+                    let mut w = v.clone();
+                    w[0] = w[n - 1].max(0.02);
+                    w[n / 2] = 0.0;
+                    policies.push((format!("one action (menu position {}) with stored policy exactly 0.0 among live ones", n / 2), w.clone(), draws));
+                    w[0] = 0.0;
+                    policies.push((format!("two actions (menu positions 0 and {}) with stored policy exactly 0.0 among live ones", n / 2), w, draws));
+                }
             }
         }
         for dom in [0.97f32, 0.999] {
@@ -772,6 +1158,10 @@ fn extreme_policy_frequencies(run: &mut Run, rng: &mut Rng, draws: usize) {
             run.count(&format!("extreme-policy-test menu-size={n}"));
             run.distinct(&(index.index(), values.iter().map(|v| v.to_bits()).collect::<Vec<u32>>()));
         }
+        if n >= 3 {
+            let what = format!("same-epoch policy update at the {name} (holes {} / {}, menu of {n})", show_cards(h0), show_cards(h1));
+            same_epoch_update_test(run, rng, &encoder, &node, draws, &what);
+        }
     }
 }
 
@@ -781,9 +1171,10 @@ fn main() {
     let mut run = Run::new(&a.out);
     quiet_panics();
     let (epochs, batch, max_dump, freq_nodes, freq_draws, directed_styles, max_dump_directed) = if a.thorough() { (40usize, 6usize, 8000usize, 40usize, 4000usize, 5u64, 12000usize) } else { (14, 4, 5000, 16, 1500, 3u64, 7000usize) };
-    let (line_repeats, structured_trees) = if a.thorough() { (6usize, 8usize) } else { (2, 4) };
+    let (line_repeats, structured_trees, cap_trees) = if a.thorough() { (6usize, 8usize, 4usize) } else { (2, 4, 2) };
+    let (hit_walks, hit_plants) = if a.thorough() { (200000usize, 2000usize) } else { (30000, 150) };
     run.rule = format!(
-        "{epochs} training epochs x {batch} trees from the real Blueprint::tree (empty profile at start, stand-in abstraction, traverser alternating, profile updated as Blueprint::solve does); every node of every tree goes through the clause-by-clause oracle; trees up to {max_dump} nodes are dumped for the Lean acceptor; opponent sampling: {freq_nodes} opponent nodes (menus of >= 3 edges preferred) x 2 policies (trained when non-uniform; skewed by verif_set_memory) x {freq_draws} epochs through the real explore_one, per-edge binomial 6 sigma against Profile::weight; plus {directed_styles} x 2 DIRECTED trees built on the real Tree::plant/fork + Encoder::branches + witness/explore_all with a scripted opponent (always min-raise / mostly raise / always call …) so that decision nodes deeper than the 16-edge window exist (dumped up to {max_dump_directed} nodes); plus trees at both sides of every phase boundary (Discount/Explore/Prune, epochs set by verif_set_epochs), in the Prune phase also after flooring the stored regret (<= REGRET_MIN) of some / all actions of root-level and deeper traverser buckets of the same forced deal; every leaf of every tree: Node::payoff of both players sums to zero, equals Settlement::pnl and equals an independent RULES payout (fold: the folder loses what he put in; showdown: best five by enumeration); STRUCTURED RARE leaves: 88 chosen deals (royal flush on the board in each suit, royal flush with one / two hole cards, straight flushes, quads, full houses, straights and flushes on the board with and without a playing hole card, controls) x 6 line styles (check-down, bet-and-call, all-in before the flop, all-in on a later street, fold, random walk) x {line_repeats} planted by hand on Tree::plant/fork + Encoder::branches + Game::apply(Draw(chosen cards)), and {structured_trees} whole external-sampling trees with such a deal as the chance outcome (oracle + Lean acceptor); opponent sampling under EXTREME policies at 6 hand-planted nodes (menus of 13/12/7/8/13/2): actions with stored policy 1e-7 / 1e-9 / 1e-12 / f32::MIN_POSITIVE next to live ones (front / middle / end of the menu), one dominant action 0.97 / 0.999, {freq_draws} (dominant: 4x) epochs each, same per-edge 6 sigma test; actionize's f32 product checked for every pot <= 2*STACK x every grid odds. distinct = (tree, node) / (deal, line) / (node, policy)"
+        "{epochs} training epochs x {batch} trees from the real Blueprint::tree (empty profile at start, stand-in abstraction, traverser alternating, profile updated as Blueprint::solve does); every node of every tree goes through the clause-by-clause oracle; trees up to {max_dump} nodes are dumped for the Lean acceptor; opponent sampling: {freq_nodes} opponent nodes (menus of >= 3 edges preferred) x 2 policies (trained when non-uniform; skewed by verif_set_memory) x {freq_draws} epochs through the real explore_one, per-edge binomial 6 sigma against Profile::weight; plus {directed_styles} x 2 DIRECTED trees built on the real Tree::plant/fork + Encoder::branches + witness/explore_all with a scripted opponent (always min-raise / mostly raise / always call …) so that decision nodes deeper than the 16-edge window exist (dumped up to {max_dump_directed} nodes); plus trees at both sides of every phase boundary (Discount/Explore/Prune, epochs set by verif_set_epochs), in the Prune phase also after flooring the stored regret (<= REGRET_MIN) of some / all actions of root-level and deeper traverser buckets of the same forced deal; every leaf of every tree: Node::payoff of both players sums to zero, equals Settlement::pnl and equals an independent RULES payout (fold: the folder loses what he put in; showdown: best five by enumeration); STRUCTURED RARE leaves: 88 chosen deals (royal flush on the board in each suit, royal flush with one / two hole cards, straight flushes, quads, full houses, straights and flushes on the board with and without a playing hole card, controls) x 8 line styles (check-down, bet-and-call, all-in before the flop, all-in on a later street, fold, random walk, limp + check to the river / turn then a min-raise war up to the raise cap) x {line_repeats} planted by hand on Tree::plant/fork + Encoder::branches + Game::apply(Draw(chosen cards)), and {structured_trees} whole external-sampling trees with such a deal as the chance outcome (oracle + Lean acceptor); RAISE CAP: at every decision node of every tree and planted line the menu's raise edges are compared with a grid written from the property text (street table while n <= MAX_RAISE_REPEATS raises / all-ins were made in the round and a raise is legal, none beyond), {cap_trees} whole trees against an opponent who limps, checks to the river / turn and then min-re-raises while a raise is offered; EXACT-STACK raises: {hit_walks} random betting lines (harness-side arithmetic on the real Game API) are searched for nodes whose menu holds a raise edge with floor(pot x odds) == the actor's stack; up to {hit_plants} distinct (street, pot, stack, edge) states are planted on Tree::plant/fork + Encoder::branches: the build must not abort (tree-build-aborts; the three builders are also run under catch), the edge has a child, its concrete action is the all-in, every child's action is permitted by a harness-side rules reading (raise <= stack - 1, >= minimum raise; all-in = stack; also applied to every child of every tree); opponent sampling under EXTREME policies at 6 hand-planted nodes (menus of 13/12/7/8/13/2): actions with stored policy exactly 0.0 / 1e-7 / 1e-9 / 1e-12 / f32::MIN_POSITIVE next to live ones (front / middle / end of the menu), one dominant action 0.97 / 0.999, {freq_draws} (dominant: 4x) epochs each, same per-edge 6 sigma test; at the same nodes the stored policy is replaced (verif_set_memory) / updated (Profile::add_policy) WITHOUT moving the epoch and the opponent asked again at the same epoch on the same thread: the answers must follow the CURRENT weights; actionize's f32 product checked for every pot <= 2*STACK x every grid odds. distinct = (tree, node) / (deal, line) / (node, policy)"
     );
     // ---- the f32 product in Game::actionize equals floor(pot*num/den) (model assumption)
     for pot in 0..=(2 * STACK as i32) {
@@ -794,6 +1185,18 @@ fn main() {
             if real != want {
                 run.fail("actionize-f32-product-not-floor", &format!("pot {pot} odds {}:{}", o.0, o.1), &format!("{want}"), &format!("{real}"));
             }
+        }
+    }
+    // ---- EXACT-STACK raises: menu edges worth exactly the actor's remaining stack
+    {
+        let hits = exact_stack_hits(&mut rng, hit_walks);
+        run.count_n("exact-stack-raise states found (distinct board-cards, pot, stack, edge)", hits.len() as u64);
+        let encoder = Encoder::default();
+        for hit in hits.iter().take(hit_plants) {
+            plant_hit(&mut run, &mut rng, &encoder, hit);
+        }
+        if run.notes.len() < 8 {
+            run.notes.push(format!("exact-stack raise states (pot, stack, edge): {}", hits.iter().take(12).map(|h| format!("({}, {}, {})", h.pot, h.stack, show_edge(&h.edge))).collect::<Vec<_>>().join(" ")));
         }
     }
     let bp = Blueprint::verif_new(Profile::default(), Encoder::default());
@@ -808,8 +1211,15 @@ fn main() {
             if tree_no % 3 == 0 {
                 robopoker::verif::set_draw_index(Some(rng.below(52) as u8));
             }
-            let tree = bp.verif_tree();
+            let tree = catch(std::panic::AssertUnwindSafe(|| bp.verif_tree()));
             robopoker::verif::set_draw_index(None);
+            let tree = match tree {
+                Some(t) => t,
+                None => {
+                    run.fail("tree-build-aborts(Blueprint::tree)", &format!("Blueprint::tree, epoch {epoch} tree {tree_no}"), "a tree", "panic");
+                    continue;
+                }
+            };
             let n = tree.all().len();
             let label = format!("epoch {epoch} tree {tree_no}");
             let dump = n <= max_dump;
@@ -937,6 +1347,13 @@ fn main() {
                 p.verif_set_epochs(base_epochs + parity);
                 directed_tree(&mut p, &Encoder::default(), style, &mut rng, None)
             };
+            let tree = match tree {
+                Ok(t) => t,
+                Err(at) => {
+                    run.fail("tree-build-aborts(directed builder)", &format!("directed builder (Tree::fork + Encoder::branches + witness / explore_all), opponent script {style}: {at}"), "the children of the node, one per menu edge", "panic inside Encoder::branches (Game::apply refuses the action the edge was turned into)");
+                    continue;
+                }
+            };
             let n = tree.all().len();
             let label = format!("directed tree style {style} walker P{}", (base_epochs + parity) % 2);
             let line = { check_tree(&mut run, &mut rng, &tree, &profile.read().unwrap(), &mut known, &label, n <= max_dump_directed, false) };
@@ -957,7 +1374,7 @@ fn main() {
     {
         let encoder = Encoder::default();
         for deal in deals.iter() {
-            for style in 0..6u64 {
+            for style in 0..8u64 {
                 for _ in 0..line_repeats {
                     line_hand(&mut run, &mut rng, &encoder, deal, style);
                 }
@@ -986,6 +1403,13 @@ fn main() {
             p.verif_set_epochs(base_epochs + parity);
             directed_tree(&mut p, &Encoder::default(), style, &mut rng, Some(deal))
         };
+        let tree = match tree {
+            Ok(t) => t,
+            Err(at) => {
+                run.fail("tree-build-aborts(directed builder)", &format!("directed builder (Tree::fork + Encoder::branches + witness / explore_all), opponent script {style}: {at}"), "the children of the node, one per menu edge", "panic inside Encoder::branches (Game::apply refuses the action the edge was turned into)");
+                continue;
+            }
+        };
         let n = tree.all().len();
         let label = format!("structured tree: {}, opponent script {style}, walker P{}", deal.describe(), (base_epochs + parity) % 2);
         let line = { check_tree(&mut run, &mut rng, &tree, &profile.read().unwrap(), &mut known, &label, n <= max_dump_directed, false) };
@@ -996,6 +1420,31 @@ fn main() {
         run.count(&format!("structured-tree-nodes<={}", match n { 0..=99 => 99, 100..=999 => 999, 1000..=4999 => 4999, _ => 999999 }));
         check_partition(&mut run, tree, &label);
     }
+    // ---- the raise cap of the late betting rounds: whole trees against an opponent who limps,
+    // checks to the river (turn) and then re-raises the minimum while the menu lets him
+    for (style, parity) in [(12u64, 0usize), (13, 1), (12, 1), (13, 0)].into_iter().take(cap_trees) {
+        let tree = {
+            let mut p = profile.write().unwrap();
+            p.verif_set_epochs(base_epochs + parity);
+            directed_tree(&mut p, &Encoder::default(), style, &mut rng, None)
+        };
+        let tree = match tree {
+            Ok(t) => t,
+            Err(at) => {
+                run.fail("tree-build-aborts(directed builder)", &format!("directed builder (Tree::fork + Encoder::branches + witness / explore_all), opponent script {style}: {at}"), "the children of the node, one per menu edge", "panic inside Encoder::branches (Game::apply refuses the action the edge was turned into)");
+                continue;
+            }
+        };
+        let n = tree.all().len();
+        let label = format!("raise-cap tree: opponent limps, checks to the {} and then re-raises the minimum while a raise is offered, walker P{}", if style == 12 { "river" } else { "turn" }, (base_epochs + parity) % 2);
+        let line = { check_tree(&mut run, &mut rng, &tree, &profile.read().unwrap(), &mut known, &label, n <= max_dump_directed, false) };
+        if let Some(line) = line {
+            run.line(&line, "accept");
+            run.count("raise-cap-tree-dumped");
+        }
+        run.count(&format!("raise-cap-tree-nodes<={}", match n { 0..=999 => 999, 1000..=4999 => 4999, 5000..=19999 => 19999, _ => 999999 }));
+        check_partition(&mut run, tree, &label);
+    }
     // ---- opponent sampling under EXTREME policies (numerically dead actions, dominant actions)
     extreme_policy_frequencies(&mut run, &mut rng, freq_draws);
     let (d, pr) = (robopoker::verif::CFR_DISCOUNT_PHASE, robopoker::verif::CFR_PRUNNING_PHASE);
@@ -1003,8 +1452,15 @@ fn main() {
         let force = rng.below(52) as u8;
         { profile.write().unwrap().verif_set_epochs(e); }
         robopoker::verif::set_draw_index(Some(force));
-        let tree = bp.verif_tree();
+        let tree = catch(std::panic::AssertUnwindSafe(|| bp.verif_tree()));
         robopoker::verif::set_draw_index(None);
+        let tree = match tree {
+            Some(t) => t,
+            None => {
+                run.fail("tree-build-aborts(Blueprint::tree)", &format!("Blueprint::tree, phase epoch {e} forced deal {force}"), "a tree", "panic");
+                continue;
+            }
+        };
         let n = tree.all().len();
         let label = format!("phase epoch {e} forced deal {force}");
         let line = { check_tree(&mut run, &mut rng, &tree, &profile.read().unwrap(), &mut known, &label, n <= max_dump / 2, true) };
@@ -1038,8 +1494,15 @@ fn main() {
                 }
                 drop(p);
                 robopoker::verif::set_draw_index(Some(force));
-                let tree2 = bp.verif_tree();
+                let tree2 = catch(std::panic::AssertUnwindSafe(|| bp.verif_tree()));
                 robopoker::verif::set_draw_index(None);
+                let tree2 = match tree2 {
+                    Some(t) => t,
+                    None => {
+                        run.fail("tree-build-aborts(Blueprint::tree)", &format!("Blueprint::tree, phase epoch {e} forced deal {force}, floored regrets"), "a tree", "panic");
+                        continue;
+                    }
+                };
                 let n2 = tree2.all().len();
                 let label = format!("phase epoch {e} forced deal {force}, regrets of {} traverser information sets at or below REGRET_MIN", picks.len());
                 let line = { check_tree(&mut run, &mut rng, &tree2, &profile.read().unwrap(), &mut known, &label, n2 <= max_dump / 2, true) };
